@@ -2,7 +2,7 @@
 Tie: H lock-step (testing/synctest) against the pump network lean/Golem/Go/Unbound.lean (`oracle unbound`);
 direct oracle = the property evaluated on what the environment saw (values whose send returned ok vs values
 received, `full` answers before cancel/close, close of the receive side, goroutine census, crashes)."""
-import json, itertools, os, subprocess
+import json, itertools, os, re, subprocess
 import vlib, lockstep as ls
 
 CAPS = [0, 1, 2, 4]
@@ -250,6 +250,59 @@ def race_stress(ctx, binp, ms=20000):
                                              case="free-running: k sends; go cancel(); go close(snd); drain", got=txt[-1500:], key={"stage": "New", "class": "race-crash"}))
 
 
+def types_phase(ctx, binp):
+    """pipe.New at other element types (string, any, a non-empty interface type; 0 is the nil interface value): what was
+    sent is what is received, in order, then the receive side closes (go/harness/lockstep/unbound_types_test.go). Direct
+    oracle only: the model is about the channel structure, not about the element type."""
+    rng = ctx.rng
+    n = 400 if ctx.thorough() else 60
+    lines = []
+    for _ in range(n):
+        k = rng.randrange(0, 9)
+        vals = [rng.choice([0, 0, rng.randrange(1, 50)]) for _ in range(k)]
+        lines.append("%d %s %s" % (rng.choice([0, 1, 2, 4]), rng.choice("cx"), " ".join(map(str, vals))))
+    fin, fout = os.path.join(ctx.tmp, "types.in"), os.path.join(ctx.tmp, "types.out")
+    todo = list(enumerate(lines))
+    for attempt in range(6):
+        if not todo:
+            break
+        open(fin, "w").write("\n".join(l for _, l in todo) + "\n")
+        if os.path.exists(fout):
+            os.remove(fout)
+        env = dict(os.environ, UNBOUND_TYPES_IN=fin, UNBOUND_TYPES_OUT=fout)
+        try:
+            p = subprocess.run([binp, "-test.run", "TestUnboundTypes$", "-test.count=1", "-test.timeout=120s"], env=env, capture_output=True, text=True, timeout=180)
+            rc, txt = p.returncode, p.stdout[-2000:] + p.stderr[-4000:]
+        except subprocess.TimeoutExpired:
+            rc, txt = -1, "timeout"
+        done, started = {}, None
+        if os.path.exists(fout):
+            for l in open(fout).read().split("\n"):
+                if l.startswith("#"):
+                    started = int(l[1:])
+                elif l:
+                    i, _, r = l.partition(" ")
+                    done[int(i)] = r
+        for i, r in sorted(done.items()):
+            idx, line = todo[i]
+            ctx.hist("element_types_runs", "string+any+iface")
+            ctx.count("types " + line, nontrivial=len(line.split()) > 2)
+            if any(not part.strip().endswith(":ok") for part in r.split("|")):
+                ctx.violations.append(vlib.Violation("impl", "pipe.New over another element type (0 = the nil interface value) does not deliver exactly what was sent, in order, before closing: " + r,
+                                                     case="types " + line, expected="ok", got=r, key={"stage": "New", "class": "element-type"}))
+        if rc == 0:
+            todo = []
+        elif started is not None and started not in done:
+            idx, line = todo[started]
+            m = re.search(r"panic: ([^\n]*)", txt)
+            ctx.violations.append(vlib.Violation("impl", "pipe.New over another element type (0 = the nil interface value): the library crashed: " + (m.group(1) if m else txt.strip()[:200]),
+                                                 case="types " + line, got=txt[-1500:], key={"stage": "New", "class": "element-type-crash"}))
+            todo = todo[started + 1:]
+        else:
+            ctx.broken.append({"kind": "correspondence", "detail": "element-type run of pipe.New failed: " + txt[-600:]})
+            break
+
+
 def run(ctx):
     ctx.cov["rule"] = ("script = capacity + environment moves on the pair returned by pipe.New (non-blocking send, close by the sender, non-blocking receive, "
                        "cancel, goroutine census) replayed under testing/synctest, the end of stream (cancel / close / both) at random resp. every position, "
@@ -279,6 +332,8 @@ def run(ctx):
         ctx.broken.append({"kind": "correspondence", "detail": "lock-step harness does not build against /repo/pipe", "log": err})
         return
     traces = ls.judge(ctx, scripts, evaluate, sub="unbound", binp=binp, record=False)
+    if not ctx.replay:
+        types_phase(ctx, binp)
     if ctx.thorough() and not ctx.replay:
         race_stress(ctx, binp)
     for tr in traces:
